@@ -508,7 +508,7 @@ def main(argv):
         os.makedirs(keep, exist_ok=True)
         os.replace(old, os.path.join(keep, "%d-%s" % (int(os.path.getmtime(old)), os.path.basename(old))))
     conf = load_conf(prop)
-    outdir = os.path.join(VERIF, "out", prop + SCR); os.makedirs(outdir, exist_ok=True)
+    outdir = os.path.join(VERIF, "out", prop + SCR + ("-thorough" if tier == "thorough" else "")); os.makedirs(outdir, exist_ok=True)
     findings = load_findings()
     violations, known_hit, notes = [], {}, []
     nrep = [0]
@@ -606,13 +606,15 @@ def main(argv):
                 seen.setdefault(sig, []).append(d)
             for sig, ds in sorted(seen.items())[:12]:
                 ds.sort(key=lambda d: len(d["ops"]))
-                # a shard that ran into its wall-clock limit answers `hang` at the op it was executing:
-                # on an overloaded machine that is no property of the code. Such a case counts only if
-                # it hangs (or diverges) again when executed alone.
+                # a shard that ran into its wall-clock limit answers `hang` at the op it was executing, one
+                # whose process was killed from outside (memory pressure, another job's clean-up) answers
+                # `fatal`: on an overloaded machine that is no property of the code. Such a case counts
+                # only if it hangs, dies or diverges again when executed alone (a genuine dead-lock or
+                # crash reproduces).
                 kept, dropped = [], 0
                 for cand in ds:
                     a = cand["at"]
-                    if a < len(cand["impl"]) and cand["impl"][a] in ("hang", "skipped") and len(kept) < 3:
+                    if a < len(cand["impl"]) and cand["impl"][a] in ("hang", "skipped", "fatal") and len(kept) < 3:
                         try:
                             if not S.case_fails(cand["ops"], cand["kind"]):
                                 dropped += 1
